@@ -6,6 +6,7 @@ Props/C09.lean.  Three ties:
   val     real NewFixedEvaluator / NewFloatEvaluator vs the value of the MODEL's tree walked with the library's own
           operator functions; reused vs fresh evaluator; division by zero as configured; no panic
   fxval   model vs code on VALUES of the fixed evaluator (Model/EvalFixed.lean computes the result)
+  state   (advisory, white-box) the stacks of the reused Evaluator after every call vs the model's evaluator state
   flval   model vs code on VALUES of the float64 / float32 evaluators, bit for bit (Model/EvalFloat.lean over the IEEE-754
           arithmetic of Model/EvalSoftFloat.lean); every line also on a reused evaluator"""
 import json
@@ -345,10 +346,14 @@ def run(ctx):
         "float_rounding_nearest_even / float_encoding_decodes (what the model's rounding IS), float_order_total / "
         "float_nan_unordered / float_mul_comm, float_number_meets_text",
         "literals with an exponent inside the FIXED evaluator (f64.FromString's ParseFloat branch, then From[T](float64) = one "
-        "float64 product with the multiplier, truncated) are computed by the model too (EvalFixed.fromExp); "
-        "fixed_exponent_literal, fixed_multiplier_exact_as_float",
+        "float64 product with the multiplier, truncated) are computed by the model too, for every grammar of ParseFloat "
+        "(decimal, `_`-separated, hexadecimal: C04's FixedText.fromStrX64, Model/FixedTextExp.lean); fixed_exponent_literal",
+        "the evaluator STATE between calls is explicit: after an accepted call the reduced stacks, after a rejected parse "
+        "the stacks at that error exit (Eval.leftoverOn: every exit of parse / processOperator / processFunction with the "
+        "mutations made by then); reuse_after_any_call, state_after_call, reset_is_needed_after_rejection; tied to the "
+        "real Evaluator's stacks by the advisory white-box area `state`",
         "NOT modelled in Lean (opaque `outside` in the model, taken from the implementation): the operator ^ (math.Pow), "
-        "sqrt cbrt exp exp2 log log10 log1p, hexadecimal and `_`-separated literals, the %v text of a float number on an exact "
+        "sqrt cbrt exp exp2 log log10 log1p, hexadecimal and `_`-separated literals of the FLOAT evaluators, the %v text of a float number on an exact "
         "tie between two shortest digit strings, exponent literals of the fixed evaluator whose scaled value leaves int64 (the Go specification leaves that "
         "conversion to the implementation); they are tied by the val stream (the model's tree walked with the library's "
         "operators, each application judged by an independent reference — Go float arithmetic / f64 methods — on ten real "
